@@ -23,10 +23,12 @@ WWR = "vaporetto::dict_model::WordWeightRecord"
 
 def run(chk):
     w = C.world_for(chk)
+    from . import ctors as _ctors2
+    _ctors2.run(chk, w, only=["DictModel::new"])
     from . import ctors as _acc
     _acc.accessors(chk, w, only=["vaporetto::dict_model::"])
     from . import c01_absent as _abs
-    _abs.run(chk, w)
+    _abs.run(chk, w, directions=("absent-implies-empty",))   # a dictionary-only model must use its dictionary
     for rid, txt in (("R19.1", "replace_dictionary/dictionary touch exactly the dictionary field"), ("R19.2", "records only through the checking constructor"),
                      ("R19.3", "dump/replace codec agreement in the tool"), ("R19.4", "tool order and error discipline")):
         chk.rule(rid, txt)
